@@ -882,7 +882,12 @@ func (c *Conn) dispatch(fr *FrameHeader) bool {
 	var block []byte
 
 	isHeaders := fr.Type() == FrameHeaders || fr.Type() == FrameContinuation
-	endStream := fr.Flags().Has(FlagEndStream)
+	// END_STREAM exists on HEADERS and DATA only; the same bit on any other
+	// frame type means nothing and is ignored (RFC 7540 4.1). A WINDOW_UPDATE
+	// or PRIORITY carrying it used to end the request, successfully and with
+	// no response in it.
+	endStream := (fr.Type() == FrameHeaders || fr.Type() == FrameData) &&
+		fr.Flags().Has(FlagEndStream)
 
 	if isHeaders || c.hdrOpen {
 		var (
